@@ -51,12 +51,16 @@ class C18(PropBase):
             "context_flags patterns; fill mode: every 32-bit word of the base context = one of {0, all-ones, each single bit, all-ones-but-one-bit, "
             "mixed} so that every field a method could consult takes every bit pattern, crossed with odd/even/boundary values written through "
             "every spelling of the sp / ip registers; unknown names (empty, foreign-architecture names, ASCII-case variants of every own name, "
-            "decorated); non-trivial = set_register accepted the name; distinct = distinct case lines")
+            "decorated); read cases `R arch fill len` = MinidumpContext::read for every ProcessorArchitecture number of format.rs plus unknown "
+            "numbers x context_flags {every ContextFlagsCpu constant, own | low bits / XSTATE / undefined bits / a second CPU bit, 0, all-ones} "
+            "x buffer lengths around every context struct's size; non-trivial = set_register accepted the name / read produced a context; "
+            "distinct = distinct case lines")
     trusted_base = [
         "Coq 8.16.1 kernel; vm_compute evaluates the finite checker over the generated tables (Proofs.tables_diagnosis_empty) and the Examples",
         "translate/context_tables.py (regex/bracket parser of context.rs + format.rs plus a typed expression parser for the dedicated "
-        "accessors' and the dispatch arms' bodies; aborts on unknown syntax; the default trait bodies and the shapes around the dispatch "
-        "matches are compared textually) — validated by the correspondence run against the live methods",
+        "accessors' and the dispatch arms' bodies; aborts on unknown syntax; bodies with a single well-typed shape - registers(), "
+        "from_raw, the format_register dispatch arms, the statement shapes around the translated parts - are compared textually) — "
+        "validated by the correspondence run against the live methods",
         "C18/Model.v: hand-written semantics of the tables and of the generated expressions (match = first matching arm; HashSet modelled "
         "as a list; values unbounded, a widening cast is the identity; CpuRegisters as a list-state iterator; format_register as a hex renderer)",
         "extraction: ExtrOcamlBasic only; ocaml/zconv.ml + ocaml/c18/main.ml glue; harness/src/bin/c18.rs",
@@ -74,14 +78,25 @@ class C18(PropBase):
                 "valid_registers() list exactly REGISTERS / its valid subset, also as iterators (CpuRegisters::next); format_register (format "
                 "string translated) renders digits that denote the value; every get_register_always arm, the value every set_register arm "
                 "assigns, the branches of register_is_valid and the condition of get_register are translated as expressions and required "
-                "by the checker to be the plain read / val / the plain calls. Proof by a diagnostic checker evaluated on the generated tables and lifted by generic lemmas. "
+                "by the checker to be the plain read / val / the plain calls; the table default_memoize_register searches, the names each "
+                "arm of valid_registers iterates, the step and value of CpuRegisters::next, the value MinidumpContext::registers pairs with a "
+                "name and the register_size arms are translated too (c18_generated_bodies: they denote the hand-written meaning). "
+                "c18_unreachable_exactly: the checked accessors reach unreachable!() exactly for get_register on a set member that is not "
+                "an accepted spelling and for the CpuContext set enumeration over a set with such a member (known finding F-C18b), never "
+                "otherwise. c18_read_dispatch / c18_read_architectures: MinidumpContext::read's architecture arms, struct sizes and CPU "
+                "flag constants are translated; for all architecture numbers, lengths and flags a context is produced only as the variant "
+                "of one of the nine tables from a buffer holding the whole struct with the type's own CPU flag, every table is chosen, "
+                "and the WinNT.h / Breakpad architecture numbers select exactly their types. "
+                "Proof by a diagnostic checker evaluated on the generated tables and lifted by generic lemmas. "
                 "The translator is validated by running the live methods on every (type, name, validity class, value, flag/fill pattern) "
                 "case against the extracted model; an independent oracle judges the implementation's answers (incl. each dedicated accessor "
                 "against the by-name read).",
         "note": "Trusted: Coq kernel; the translator (correspondence-checked); hand-written semantics of tables/expressions; extraction + glue. "
-                "The shapes around the translated sub-expressions and the bodies of memoize_register (default), registers, valid_registers and "
-                "CpuRegisters::next are modelled by hand and pinned textually by the translator. Validity sets are assumed to hold only names the context knows "
-                "(a set holding an unknown name makes get_register panic: known finding F-C18b, see design/C18.md). No axioms.",
+                "The statement shapes around the translated sub-expressions, registers(), from_raw and the format_register dispatch arms "
+                "are modelled by hand and pinned textually by the translator. MinidumpContext::read is modelled as the choice of the type "
+                "(architecture, length, CPU flags); the field-by-field deserialisation is scroll's derive(Pread), compared through the byte "
+                "layout on every case, not proved. The positive theorems assume validity sets hold only names the context knows; the "
+                "complement is characterised exactly (c18_unreachable_exactly) and recorded as known finding F-C18b. No axioms.",
     }
     assumptions = ["theorems: MinidumpContextValidity::Some(S) holds only names memoize_register accepts; the complement is the recorded "
                    "known finding F-C18b (a set holding an unknown name makes the checked accessors reach unreachable!()), exercised on every run",
